@@ -340,7 +340,7 @@ def gen_small(rng, stats, i):
     return Case("small%d" % i, rand_opts(rng, True), batches, reads, expect=expect)
 
 
-REMAINS = list(range(0, 26)) + [18, 19, 20, 21, 19, 20, 28, 29, 30, 31, 37, 38, 39, 40, 41, 64, 100, 1000]
+REMAINS = list(range(0, 26)) + [18, 19, 20, 21, 19, 20, 28, 29, 30, 31, 37, 38, 39, 40, 41, 50, 64, 80, 100, 150, 200, 1000]
 
 
 def probe_sizes(rng, r):
@@ -413,6 +413,14 @@ def gen_boundary(rng, stats, i, quick, nblocks=1, force_r=None, force_probe=None
         s = rng.choice(probe_sizes(rng, nb - lay.bw)) if force_probe is None else force_probe(nb - lay.bw)
         s = max(8, min(s, B))
         es = solve_entries(rng, s)
+        if force_probe is None and nb - lay.bw >= 28 and rng.chance(1, 3):
+            # a probe of MANY SMALL entries that does not fit: its first fragment then holds whole
+            # entries, so a reader that wrongly returns a torn first fragment shows a partial batch
+            # (seeded change C12-2)
+            es = []
+            while sum(e.size() for e in es if e.accepted()) <= (nb - lay.bw) + 40:
+                es.append(small_entry(rng))
+            bump(stats, "probe_many_small")
         if es is not None:
             before = len(lay.frames)
             add(es)
